@@ -388,5 +388,36 @@ def basis_change_outcomes(ix: Index) -> list[Outcome]:
     return out
 
 
+def array_api_backend_outcomes(ix: Index) -> list[Outcome]:
+    """jax / torch back-ends (thorough tier): einsum-based closures with numpy semantics, `out` refused by design"""
+    out: list[Outcome] = []
+    for route, rel, cls, modname in (("jax", "pde/backends/jax/backend.py", "JaxBackend", "jnp"), ("torch", "pde/backends/torch/backend.py", "TorchBackend", "torch")):
+        fdot = ix.func(rel, f"{cls}.make_inner_prod_operator")
+        fouter = ix.func(rel, f"{cls}.make_outer_prod_operator")
+        for dim, shape in _configs():
+            g = grid_stub(dim, shape)
+            fld = field_stub("VectorField", g, sym_array("f", (dim,) + shape), "field")
+            for cj in (True, False):
+                sem = NpSem(where=fdot.ref)
+                dot = sem.run_function(fdot.node, {}, (Opaque("backend"), fld), {"conjugate": cj}, outer=module_scope(ix, fdot, {modname: NP}))
+                if not isinstance(dot, Closure):
+                    raise AnalysisError(f"{fdot.ref}: factory does not return a closure")
+                for ra, rb in DOT_ROLE:
+                    a, b = sym_array("a", (dim,) * ra + shape), sym_array("b", (dim,) * rb + shape)
+                    o = Outcome(fdot.ref + ".dot", DOT_ROLE[(ra, rb)], {"dim": dim, "grid shape": shape, "ranks": (ra, rb), "out given": False, "conjugate": cj}, dot.node.lineno, route=route, group=f"dot{ra}{rb}/{dim}/{shape}/{cj}")
+                    out.append(_run(o, lambda: dot(a.copy(), b.copy()), a, b, dim, cj))
+            sem = NpSem(where=fouter.ref)
+            outer = sem.run_function(fouter.node, {}, (Opaque("backend"), fld), {}, outer=module_scope(ix, fouter, {modname: NP}))
+            a, b = sym_array("a", (dim,) + shape), sym_array("b", (dim,) + shape)
+            o = Outcome(fouter.ref + ".outer", "out[i,j]=a[i]*b[j]", {"dim": dim, "grid shape": shape, "out given": False}, outer.node.lineno, route=route, group=f"outer/{dim}/{shape}")
+            out.append(_run(o, lambda: outer(a.copy(), b.copy()), a, b, dim, False))
+    return out
+
+
 def all_outcomes(ix: Index) -> list[Outcome]:
-    return field_method_outcomes(ix) + numpy_backend_outcomes(ix) + numba_backend_outcomes(ix) + basis_change_outcomes(ix)
+    import os
+
+    res = field_method_outcomes(ix) + numpy_backend_outcomes(ix) + numba_backend_outcomes(ix) + basis_change_outcomes(ix)
+    if os.environ.get("PDELINT_TIER") == "thorough":
+        res += array_api_backend_outcomes(ix)
+    return res
